@@ -497,7 +497,7 @@ fn join_happens_under_the_lock() -> Result<(bool, bool), String> {
 fn run_race(ctx: &Ctx) {
     let mut out = Out::new(ctx, "-race");
     let mut rng = Rng::new(ctx.seed ^ 0x17);
-    let runs = if ctx.replay.is_some() { 50 } else if ctx.tier_thorough { 4000 } else { 400 };
+    let runs = if ctx.replay.is_some() { 50 } else if ctx.tier_thorough { 20000 } else { 400 };
     for _ in 0..runs {
         let threads = rng.range(1, 4) as usize;
         let per = *rng.pick(&[1usize, 1, 2, 5, 20, 60]);
@@ -557,7 +557,7 @@ pub fn run(ctx: &Ctx) {
     for ops in &all { emit(&mut out, ops, "exhaustive_small_histories"); }
     // random histories
     let mut rng = Rng::new(ctx.seed);
-    let n = if thorough { 30000 } else { 4000 };
+    let n = if thorough { 120000 } else { 4000 };
     let mut forget_budget = if thorough { 70 } else { 40 };
     for i in 0..n {
         let len = rng.range(1, if thorough { 25 } else { 12 }) as usize;
